@@ -748,7 +748,7 @@ class Server(Acceptor):
                               store=self.store,
                               timeout=self.timeout)
             if ca in self.ixes and self.ixes[ca] is not incomer:
-                self.shutdownIx[ca]
+                self.shutdownIx(ca)
             self.ixes[ca] = incomer
 
     def serviceConnects(self):
@@ -943,6 +943,8 @@ class ServerTls(Server):
         """
         for ca, cx in self.cxes.items():
             if cx.serviceHandshake():
+                if ca in self.ixes and self.ixes[ca] is not cx:
+                    self.shutdownIx(ca)
                 self.ixes[ca] = cx
                 del self.cxes[ca]
 
